@@ -32,7 +32,7 @@ m = {
     "hooks": {
         "guard": "kani",
         "enable": "none in /repo: contracts and harness modules are inserted into a scratch copy of the working tree at check time (lines under #[cfg(any(kani, test))]); Verus units are generated from /repo's text on every run",
-        "baseline_off_cmd": "cd /repo && cargo nextest run --workspace --no-fail-fast --test-threads 8 --offline",
+        "baseline_off_cmd": "cd /repo && cargo nextest run --workspace --no-fail-fast --tool-config-file pb:/w/lib/nextest.toml --profile pb --test-threads 8 --offline",
         "source_commits": [],
         "add_only": True,
     },
